@@ -220,9 +220,21 @@ func (w *World) resolveNode(strategy string, id int, field *ggql.Field, args map
 		key = field.Name
 	}
 	nth := w.log(Call{Strategy: strategy, Node: id, Field: field.Name, Key: key, Args: hx.CanonArgs(args), HasArgs: args})
+	valErr := false
 	if f, bad := w.faults[fkey(id, field.Name)]; bad && f.Kind != "nth" && (f.Call == 0 || f.Call == nth) {
-		return nil, faultErr(f)
+		if f.Kind != "valerr" {
+			return nil, faultErr(f)
+		}
+		valErr = true // the value is handed over as usual, together with an error
 	}
+	if valErr {
+		v, _ := w.resolveNodeValue(strategy, id, field, args)
+		return v, errInjected
+	}
+	return w.resolveNodeValue(strategy, id, field, args)
+}
+
+func (w *World) resolveNodeValue(strategy string, id int, field *ggql.Field, args map[string]interface{}) (interface{}, error) {
 	if w.Hook != nil {
 		if v, err, ok := w.Hook(id, field, args); ok {
 			return v, err
